@@ -424,7 +424,7 @@ class FcpV2Transformer(Transformer):
             return error(f"File not found: {pathlib.Path(e.filename).name}")
 
         try:
-            self.error_logger.add_source(filename.name, source)
+            self.error_logger.add_source(filename.name, source, filename)
             fcp_ast = fcp_parser.parse(source)
         except (UnexpectedCharacters, UnexpectedEOF) as e:
             line, column = _error_position(e, source)
@@ -575,7 +575,7 @@ def _get_fcp(
     logger: Logger,
 ) -> Result[v2.FcpV2, FcpError]:
     source = filesystem_proxy.read(filename)
-    logger.add_source(filename.name, source)
+    logger.add_source(filename.name, source, filename)
     try:
         fcp_ast = fcp_parser.parse(source)
     except (UnexpectedCharacters, UnexpectedEOF) as e:
